@@ -20,12 +20,12 @@ Section Subst.
   Variable okb : sym -> bool.          (* symbols the body may bind *)
   Variable T : env -> env.             (* environment of the rewritten run, from that of the original *)
   Variable Good : env -> Prop.         (* what the rewritten environment must satisfy for [c] to mean [cv] *)
+  Variable hid : sym -> bool.          (* symbols whose binding [T] may change or add: the body must not mention them *)
 
   Hypothesis okb_x : okb x = false.
   Hypothesis c_eval : forall st, Good (s_env st) -> eval st c = Ok cv.
   Hypothesis c_noview : forall st, Good (s_env st) -> eval_view st c = Err TypeErr.
-  Hypothesis T_lookup : forall e y, y <> x -> lookup y (T e) = lookup y e.
-  Hypothesis T_x : forall e, match lookup x (T e) with Some (BView _) => False | _ => True end.
+  Hypothesis T_lookup : forall e y, y <> x -> hid y = false -> lookup y (T e) = lookup y e.
   Hypothesis T_cons : forall y b e, okb y = true -> T ((y, b) :: e) = (y, b) :: T e.
   Hypothesis Good_cons : forall y b e, okb y = true -> Good e -> Good ((y, b) :: e).
 
@@ -46,14 +46,72 @@ Section Subst.
   Lemma inv_good : forall st, inv st -> Good (s_env (tst st)).
   Proof. intros st [_ H]. exact H. Qed.
 
+  (** no hidden symbol occurs, and [x] is never used as a buffer name (it is a control variable) *)
+  Fixpoint nm_e (e : expr) {struct e} : bool :=
+    match e with
+    | Var y => negb (hid y)
+    | Int _ | BoolC _ | Real _ | ReadCfg _ => true
+    | Read y idx => negb (hid y) && negb (Pos.eqb y x) &&
+        (fix go (l : list expr) : bool := match l with [] => true | a :: r => nm_e a && go r end) idx
+    | USub a => nm_e a
+    | BinOp _ a b => nm_e a && nm_e b
+    | Extern _ args => (fix go (l : list expr) : bool := match l with [] => true | a :: r => nm_e a && go r end) args
+    | WindowE y acc => negb (hid y) && negb (Pos.eqb y x) &&
+        (fix go (l : list wacc) : bool :=
+           match l with
+           | [] => true
+           | Point a :: r => nm_e a && go r
+           | Interval a b :: r => nm_e a && nm_e b && go r
+           end) acc
+    | Stride y _ => negb (hid y) && negb (Pos.eqb y x)
+    end.
+  Definition nm_w (w : wacc) : bool := match w with Point a => nm_e a | Interval a b => nm_e a && nm_e b end.
+  Lemma go_nm_e : forall l,
+    (fix go (l : list expr) : bool := match l with [] => true | a :: r => nm_e a && go r end) l = forallb nm_e l.
+  Proof. induction l as [|a r IH]; [reflexivity|]. cbn [forallb]. rewrite <- IH. reflexivity. Qed.
+  Lemma go_nm_w : forall l,
+    (fix go (l : list wacc) : bool :=
+       match l with
+       | [] => true
+       | Point a :: r => nm_e a && go r
+       | Interval a b :: r => nm_e a && nm_e b && go r
+       end) l = forallb nm_w l.
+  Proof. induction l as [|[a|a b] r IH]; [reflexivity| |]; cbn [forallb nm_w]; rewrite <- IH; reflexivity. Qed.
+
+  Fixpoint nm_s (s : stmt) {struct s} : bool :=
+    match s with
+    | Assign y idx rhs | Reduce y idx rhs => negb (hid y) && negb (Pos.eqb y x) && forallb nm_e idx && nm_e rhs
+    | WriteCfg _ rhs => nm_e rhs
+    | Pass => true
+    | If e a b =>
+        nm_e e &&
+        (fix go (l : list stmt) : bool := match l with [] => true | a :: r => nm_s a && go r end) a &&
+        (fix go (l : list stmt) : bool := match l with [] => true | a :: r => nm_s a && go r end) b
+    | For _ lo hi body _ =>
+        nm_e lo && nm_e hi &&
+        (fix go (l : list stmt) : bool := match l with [] => true | a :: r => nm_s a && go r end) body
+    | Alloc _ shape => forallb nm_e shape
+    | Call _ args => forallb nm_e args
+    | WindowS _ rhs => nm_e rhs
+    end.
+  Lemma go_nm_s : forall l,
+    (fix go (l : list stmt) : bool := match l with [] => true | a :: r => nm_s a && go r end) l = forallb nm_s l.
+  Proof. induction l as [|a r IH]; [reflexivity|]. cbn [forallb]. rewrite <- IH. reflexivity. Qed.
+
   (** ** expressions *)
-  Lemma get_view_sub : forall st y, inv st -> rsim eq (get_view st y) (get_view (tst st) y).
+  Lemma get_view_sub : forall st y, negb (hid y) && negb (Pos.eqb y x) = true -> inv st ->
+    rsim eq (get_view st y) (get_view (tst st) y).
   Proof.
-    intros st y [Hb Hg]. unfold get_view. rewrite tst_env.
-    destruct (Pos.eq_dec y x) as [->|Hne].
-    - rewrite Hb. pose proof (T_x (s_env st)) as Hx.
-      destruct (lookup x (T (s_env st))) as [[v|w]|]; cbn; [exact I|contradiction|exact I].
-    - rewrite T_lookup by exact Hne. apply rsim_refl.
+    intros st y Hy [Hb Hg]. apply andb_true_iff in Hy as [Hy Hne].
+    apply negb_true_iff in Hy. apply negb_true_iff, Pos.eqb_neq in Hne.
+    unfold get_view. rewrite tst_env, T_lookup by assumption. apply rsim_refl.
+  Qed.
+
+  Lemma Forall_nm : forall (Q : expr -> Prop) l,
+    Forall (fun e => nm_e e = true -> Q e) l -> forallb nm_e l = true -> Forall Q l.
+  Proof.
+    intros Q l H. induction H as [|a r Ha Hr IH]; intro Hn; [constructor|].
+    cbn [forallb] in Hn. apply andb_true_iff in Hn as [H1 H2]. constructor; auto.
   Qed.
 
   Definition esub (st : state) (e : expr) : Prop := rsim eq (eval st e) (eval (tst st) (pe_e e)).
@@ -89,48 +147,57 @@ Section Subst.
       eapply rsim_eq_bind; [exact IH|]. intro rs. cbn. reflexivity.
   Qed.
 
-  Theorem eval_sub : forall e st, inv st -> esub st e.
+  Theorem eval_sub : forall e st, nm_e e = true -> inv st -> esub st e.
   Proof.
-    intros e st Hb. unfold esub. induction e using expr_ind2.
+    intros e st Hn Hb. unfold esub. induction e using expr_ind2; cbn [nm_e] in Hn.
     - (* Var *) cbn [PartialEval.pe_e]. destruct (Pos.eqb x0 x) eqn:E.
       + apply Pos.eqb_eq in E. subst x0. rewrite (c_eval (tst st)) by (apply inv_good, Hb).
         cbn [eval]. destruct Hb as [Hb _]. rewrite Hb. cbn. reflexivity.
-      + apply Pos.eqb_neq in E. cbn [eval]. rewrite tst_env, T_lookup by exact E. apply rsim_refl.
+      + apply Pos.eqb_neq in E. apply negb_true_iff in Hn. cbn [eval]. rewrite tst_env, T_lookup by assumption. apply rsim_refl.
     - cbn. reflexivity.
     - cbn. reflexivity.
     - cbn. reflexivity.
-    - (* Read *) rewrite pe_e_Read, !eval_Read.
-      eapply rsim_eq_bind; [apply get_view_sub, Hb|]. intro w.
-      eapply rsim_eq_bind; [apply eval_ints_sub, H|]. intro is. rewrite tst_heap. apply rsim_refl.
-    - (* USub *) cbn [PartialEval.pe_e eval]. eapply rsim_eq_bind; [exact IHe|]. intro v. apply rsim_refl.
-    - (* BinOp *) cbn [PartialEval.pe_e eval]. eapply rsim_eq_bind; [exact IHe1|]. intro v1.
-      eapply rsim_eq_bind; [exact IHe2|]. intro v2. apply rsim_refl.
-    - (* Extern *) rewrite pe_e_Extern, !eval_Extern.
-      eapply rsim_eq_bind; [apply eval_vals_sub, H|]. intro vs. apply rsim_refl.
+    - (* Read *) rewrite go_nm_e in Hn. apply andb_true_iff in Hn as [Hy Hl].
+      rewrite pe_e_Read, !eval_Read.
+      eapply rsim_eq_bind; [apply get_view_sub; assumption|]. intro w.
+      eapply rsim_eq_bind; [apply eval_ints_sub, Forall_nm; assumption|]. intro is. rewrite tst_heap. apply rsim_refl.
+    - (* USub *) cbn [PartialEval.pe_e eval]. eapply rsim_eq_bind; [apply IHe, Hn|]. intro v. apply rsim_refl.
+    - (* BinOp *) apply andb_true_iff in Hn as [H1 H2]. cbn [PartialEval.pe_e eval]. eapply rsim_eq_bind; [apply IHe1, H1|]. intro v1.
+      eapply rsim_eq_bind; [apply IHe2, H2|]. intro v2. apply rsim_refl.
+    - (* Extern *) rewrite go_nm_e in Hn. rewrite pe_e_Extern, !eval_Extern.
+      eapply rsim_eq_bind; [apply eval_vals_sub, Forall_nm; assumption|]. intro vs. apply rsim_refl.
     - (* WindowE *) rewrite pe_e_WindowE. cbn [eval]. exact I.
     - (* Stride *) cbn [PartialEval.pe_e eval].
-      eapply rsim_eq_bind; [apply get_view_sub, Hb|]. intro w. apply rsim_refl.
+      eapply rsim_eq_bind; [apply get_view_sub; assumption|]. intro w. apply rsim_refl.
     - (* ReadCfg *) cbn [PartialEval.pe_e eval]. rewrite tst_cfg. apply rsim_refl.
   Qed.
 
-  Lemma eval_ints_sub' : forall st l, inv st -> rsim eq (eval_ints st l) (eval_ints (tst st) (pe_es x c l)).
-  Proof. intros. apply eval_ints_sub. apply Forall_forall. intros e _. apply eval_sub, H. Qed.
-
-  Lemma eval_view_sub : forall st e, inv st -> rsim eq (eval_view st e) (eval_view (tst st) (pe_e e)).
+  Lemma eval_ints_sub' : forall st l, forallb nm_e l = true -> inv st ->
+    rsim eq (eval_ints st l) (eval_ints (tst st) (pe_es x c l)).
   Proof.
-    intros st e Hb. destruct e; try (cbn; exact I).
+    intros st l Hn Hb. apply eval_ints_sub. apply Forall_forall. intros e He. apply eval_sub; [|exact Hb].
+    rewrite forallb_forall in Hn. apply Hn, He.
+  Qed.
+
+  Lemma eval_view_sub : forall st e, nm_e e = true -> inv st -> rsim eq (eval_view st e) (eval_view (tst st) (pe_e e)).
+  Proof.
+    intros st e Hn Hb. destruct e; try (cbn; exact I); cbn [nm_e] in Hn.
     - (* Var *) cbn [PartialEval.pe_e]. destruct (Pos.eqb x0 x).
       + rewrite (c_noview (tst st)) by (apply inv_good, Hb). cbn. exact I.
       + cbn. exact I.
-    - (* Read *) rewrite pe_e_Read. destruct idx as [|a r].
-      + cbn [pe_es map eval_view]. apply get_view_sub, Hb.
+    - (* Read *) rewrite go_nm_e in Hn. apply andb_true_iff in Hn as [Hy Hl].
+      rewrite pe_e_Read. destruct idx as [|a r].
+      + cbn [pe_es map eval_view]. apply get_view_sub; assumption.
       + cbn [pe_es map eval_view]. fold (pe_es x c (a :: r)).
-        eapply rsim_eq_bind; [apply get_view_sub, Hb|]. intro w.
-        eapply rsim_eq_bind; [apply (eval_ints_sub' st (a :: r)), Hb|]. intro is. apply rsim_refl.
-    - (* WindowE *) rewrite pe_e_WindowE. cbn [eval_view].
-      eapply rsim_eq_bind; [apply get_view_sub, Hb|]. intro w.
+        eapply rsim_eq_bind; [apply get_view_sub; assumption|]. intro w.
+        eapply rsim_eq_bind; [apply (eval_ints_sub' st (a :: r)); assumption|]. intro is. apply rsim_refl.
+    - (* WindowE *) rewrite go_nm_w in Hn. apply andb_true_iff in Hn as [Hy Hl].
+      rewrite pe_e_WindowE. cbn [eval_view].
+      eapply rsim_eq_bind; [apply get_view_sub; assumption|]. intro w.
       eapply rsim_eq_bind; [apply eval_waccs_sub|].
-      { apply Forall_forall. intros wa _. destruct wa; cbn [PW]; [apply eval_sub, Hb | split; apply eval_sub, Hb]. }
+      { apply Forall_forall. intros wa Hwa. rewrite forallb_forall in Hl. specialize (Hl wa Hwa).
+        destruct wa; cbn [PW nm_w] in *; [apply eval_sub; assumption|].
+        apply andb_true_iff in Hl as [H1 H2]. split; apply eval_sub; assumption. }
       intro av. apply rsim_refl.
   Qed.
 
@@ -166,14 +233,14 @@ Section Subst.
   Qed.
 
   Definition ssub (s : stmt) : Prop :=
-    okbind s = true -> forall st, inv st -> rsim SR (exec s st) (exec (pe_s s) (tst st)).
+    okbind s = true -> nm_s s = true -> forall st, inv st -> rsim SR (exec s st) (exec (pe_s s) (tst st)).
 
-  Lemma exec_list_sub : forall l, Forall ssub l -> forallb okbind l = true ->
+  Lemma exec_list_sub : forall l, Forall ssub l -> forallb okbind l = true -> forallb nm_s l = true ->
     forall st, inv st -> rsim SR (exec_list l st) (exec_list (pe_ss x c l) (tst st)).
   Proof.
-    intros l H. induction H as [|s r Hs Hr IH]; intros Hnb st Hb.
+    intros l H. induction H as [|s r Hs Hr IH]; intros Hnb Hnm st Hb.
     - cbn. split; [reflexivity|exact Hb].
-    - cbn [forallb] in Hnb. apply andb_true_iff in Hnb as [Hn1 Hn2].
+    - cbn [forallb] in Hnb, Hnm. apply andb_true_iff in Hnb as [Hn1 Hn2]. apply andb_true_iff in Hnm as [Hm1 Hm2].
       cbn [pe_ss map exec_list]. fold (pe_ss x c r).
       eapply rsim_bind; [apply Hs; assumption|]. intros st1 st2 [-> Hb1]. apply IH; assumption.
   Qed.
@@ -195,79 +262,84 @@ Section Subst.
     - eapply rsim_bind; [apply H, Hb|]. intros st1 st2 [-> Hb1]. apply IH, Hb1.
   Qed.
 
-  Lemma eval_actuals_sub : forall formals args st, inv st ->
+  Lemma eval_actuals_sub : forall formals args st, forallb nm_e args = true -> inv st ->
     rsim eq (eval_actuals st formals args) (eval_actuals (tst st) formals (pe_es x c args)).
   Proof.
-    induction formals as [|[y k] fr IH]; intros args st Hb; destruct args as [|e er]; cbn [pe_es map eval_actuals]; try exact I.
+    induction formals as [|[y k] fr IH]; intros args st Hn Hb; destruct args as [|e er]; cbn [pe_es map eval_actuals]; try exact I.
     - reflexivity.
-    - fold (pe_es x c er).
+    - fold (pe_es x c er). cbn [forallb] in Hn. apply andb_true_iff in Hn as [Hn1 Hn2].
       assert (Ha : rsim eq (eval_actual st k e) (eval_actual (tst st) k (pe_e e))).
       { destruct k; cbn [eval_actual];
-          try (eapply rsim_eq_bind; [apply eval_sub, Hb|]; intro v; apply rsim_refl);
-          (eapply rsim_eq_bind; [apply eval_view_sub, Hb|]; intro w; apply rsim_refl). }
+          try (eapply rsim_eq_bind; [apply eval_sub; assumption|]; intro v; apply rsim_refl);
+          (eapply rsim_eq_bind; [apply eval_view_sub; assumption|]; intro w; apply rsim_refl). }
       eapply rsim_eq_bind; [exact Ha|]. intro b.
-      eapply rsim_eq_bind; [apply IH, Hb|]. intro bs. apply rsim_refl.
+      eapply rsim_eq_bind; [apply IH; assumption|]. intro bs. apply rsim_refl.
   Qed.
 
   Theorem exec_sub : forall s, ssub s.
   Proof.
-    induction s using stmt_ind2; unfold ssub; intros Hnb st Hb.
-    - (* Assign *) cbn [PartialEval.pe_s exec].
-      eapply rsim_eq_bind; [apply get_view_sub, Hb|]. intro w.
-      eapply rsim_eq_bind; [apply eval_ints_sub', Hb|]. intro is.
-      eapply rsim_eq_bind; [apply eval_sub, Hb|]. intro v.
+    induction s using stmt_ind2; unfold ssub; intros Hnb Hnm st Hb; cbn [nm_s] in Hnm.
+    - (* Assign *) apply andb_true_iff in Hnm as [Hnm Hr]. apply andb_true_iff in Hnm as [Hy Hi].
+      cbn [PartialEval.pe_s exec].
+      eapply rsim_eq_bind; [apply get_view_sub; assumption|]. intro w.
+      eapply rsim_eq_bind; [apply eval_ints_sub'; assumption|]. intro is.
+      eapply rsim_eq_bind; [apply eval_sub; assumption|]. intro v.
       destruct (as_data v); cbn [bind]; [|exact I]. rewrite tst_heap.
       destruct (cell_write _ _ _ _); cbn [bind]; [|exact I]. split; [reflexivity|exact Hb].
-    - (* Reduce *) cbn [PartialEval.pe_s exec].
-      eapply rsim_eq_bind; [apply get_view_sub, Hb|]. intro w.
-      eapply rsim_eq_bind; [apply eval_ints_sub', Hb|]. intro is.
-      eapply rsim_eq_bind; [apply eval_sub, Hb|]. intro v.
+    - (* Reduce *) apply andb_true_iff in Hnm as [Hnm Hr]. apply andb_true_iff in Hnm as [Hy Hi].
+      cbn [PartialEval.pe_s exec].
+      eapply rsim_eq_bind; [apply get_view_sub; assumption|]. intro w.
+      eapply rsim_eq_bind; [apply eval_ints_sub'; assumption|]. intro is.
+      eapply rsim_eq_bind; [apply eval_sub; assumption|]. intro v.
       destruct (as_data v); cbn [bind]; [|exact I]. rewrite tst_heap.
       destruct (cell_read _ _ _); cbn [bind]; [|exact I].
       destruct (cell_write _ _ _ _); cbn [bind]; [|exact I]. split; [reflexivity|exact Hb].
     - (* WriteCfg *) cbn [PartialEval.pe_s exec].
-      eapply rsim_eq_bind; [apply eval_sub, Hb|]. intro v. cbn. split; [reflexivity|exact Hb].
+      eapply rsim_eq_bind; [apply eval_sub; assumption|]. intro v. cbn. split; [reflexivity|exact Hb].
     - (* Pass *) cbn. split; [reflexivity|exact Hb].
-    - (* If *) rewrite pe_s_If, !exec_If. cbn [okbind] in Hnb. rewrite !go_okbind in Hnb.
+    - (* If *) rewrite pe_s_If, !exec_If. cbn [okbind] in Hnb. rewrite !go_okbind in Hnb. rewrite !go_nm_s in Hnm.
       apply andb_true_iff in Hnb as [Hna Hnb'].
-      eapply rsim_eq_bind; [apply eval_sub, Hb|]. intro v.
+      apply andb_true_iff in Hnm as [Hnm Hmb]. apply andb_true_iff in Hnm as [Hme Hma].
+      eapply rsim_eq_bind; [apply eval_sub; assumption|]. intro v.
       destruct (as_bool v) as [[]|]; cbn [bind]; [| |exact I].
       + apply scoped_sub; [|exact Hb]. intros st0 Hb0. apply exec_list_sub; assumption.
       + apply scoped_sub; [|exact Hb]. intros st0 Hb0. apply exec_list_sub; assumption.
-    - (* For *) rewrite pe_s_For, !exec_For. cbn [okbind] in Hnb. rewrite go_okbind in Hnb.
+    - (* For *) rewrite pe_s_For, !exec_For. cbn [okbind] in Hnb. rewrite go_okbind in Hnb. rewrite go_nm_s in Hnm.
       apply andb_true_iff in Hnb as [Hni Hnbody].
-      eapply rsim_eq_bind; [apply eval_sub, Hb|]. intro vl. destruct (as_int vl) as [l|]; cbn [bind]; [|exact I].
-      eapply rsim_eq_bind; [apply eval_sub, Hb|]. intro vh. destruct (as_int vh) as [h|]; cbn [bind]; [|exact I].
+      apply andb_true_iff in Hnm as [Hnm Hmbody]. apply andb_true_iff in Hnm as [Hmlo Hmhi].
+      eapply rsim_eq_bind; [apply eval_sub; assumption|]. intro vl. destruct (as_int vl) as [l|]; cbn [bind]; [|exact I].
+      eapply rsim_eq_bind; [apply eval_sub; assumption|]. intro vh. destruct (as_int vh) as [h|]; cbn [bind]; [|exact I].
       destruct (h <? l); [exact I|].
       apply iter_loop_sub; [|exact Hb]. intros k st0 Hb0. unfold loop_body.
       rewrite <- tst_bind_var by exact Hni.
-      eapply rsim_bind; [apply exec_list_sub; [exact H|exact Hnbody|apply inv_bind_var; assumption]|].
+      eapply rsim_bind; [apply exec_list_sub; [exact H|exact Hnbody|exact Hmbody|apply inv_bind_var; assumption]|].
       intros st1 st2 [-> Hb1]. cbn. split; [reflexivity|exact Hb0].
     - (* Alloc *) cbn [PartialEval.pe_s exec]. cbn [okbind] in Hnb.
-      eapply rsim_eq_bind; [apply eval_ints_sub', Hb|]. intro sh.
+      eapply rsim_eq_bind; [apply eval_ints_sub'; assumption|]. intro sh.
       destruct (all_pos sh); [|exact I]. cbn.
       split.
       + unfold tst, with_env, bind_var. cbn [s_env s_heap s_next s_cfg]. rewrite T_cons by exact Hnb. reflexivity.
       + apply inv_bind_var; [exact Hnb|]. exact Hb.
     - (* Call *) destruct f as [formals preds body]. cbn [PartialEval.pe_s]. rewrite !exec_Call.
-      eapply rsim_eq_bind; [apply eval_actuals_sub, Hb|]. intro acts.
+      eapply rsim_eq_bind; [apply eval_actuals_sub; assumption|]. intro acts.
       replace (with_env [] (tst st)) with (with_env [] st) by reflexivity.
       destruct (bind_args formals acts (with_env [] st)) as [callee|]; cbn [bind]; [|exact I].
       destruct (check_preds callee preds); cbn [bind]; [|exact I].
       destruct (exec_list body callee) as [st'|]; cbn [bind]; [|exact I].
       cbn. split; [reflexivity|exact Hb].
     - (* WindowS *) cbn [PartialEval.pe_s exec]. cbn [okbind] in Hnb.
-      eapply rsim_eq_bind; [apply eval_view_sub, Hb|]. intro w. cbn.
+      eapply rsim_eq_bind; [apply eval_view_sub; assumption|]. intro w. cbn.
       split.
       + unfold tst, with_env, bind_var. cbn [s_env s_heap s_next s_cfg]. rewrite T_cons by exact Hnb. reflexivity.
       + apply inv_bind_var; [exact Hnb|]. exact Hb.
   Qed.
 
   (** the form used by the rewrite rules: a whole body *)
-  Corollary body_sub : forall body st, forallb okbind body = true -> inv st ->
+  Corollary body_sub : forall body st, forallb okbind body = true -> forallb nm_s body = true -> inv st ->
     rsim SR (exec_list body st) (exec_list (pe_ss x c body) (tst st)).
   Proof.
-    intros body st Hok Hi. apply exec_list_sub; [|exact Hok|exact Hi].
+    intros body st Hok Hnm Hi. apply exec_list_sub; [|exact Hok|exact Hnm|exact Hi].
     apply Forall_forall. intros s _. apply exec_sub.
   Qed.
 End Subst.
+
